@@ -32,6 +32,7 @@ package timer
 // the drainer
 //@ func (*Timer).Async$1
 //@   props C19
+//@   barrier f   // prop C19
 //@   safety index slice nil div assert panic make lock lockset
 //@   requires t != nil && t.gDTok && t.gDI == 0 && !holds(t.asyncMux)
 //@   ensures retired: !t.gDTok && !holds(t.asyncMux)                                         // prop C19
